@@ -417,7 +417,11 @@ def run_subclass(cases, stats):
         # with the globals of the base's own module (so `re`, `datetime` ... resolve as for hand-written code)
         import types
         import excel2pycl.src.utilities.abstract_excel_in_python_class as base_mod
-        body = {n: types.FunctionType(f.__code__, vars(base_mod), n, f.__defaults__, f.__closure__) for n, f in members.items()}
+        # ... hand-written code sees its own module, not the generated one: builtins and the datetime module (date constants
+        # are spelled datetime.datetime(...)) - whatever else a cell needs must come from the helpers of the base class
+        import builtins
+        user_module = {'__builtins__': builtins, 'datetime': datetime, '__name__': 'hand_written'}
+        body = {n: types.FunctionType(f.__code__, user_module, n, f.__defaults__, f.__closure__) for n, f in members.items()}
         g0 = gen()
 
         def init(self, arguments=None, _t=g0.get_titles(), _s=g0.get_sheets_size()):
